@@ -57,6 +57,16 @@ def corr_sum_rule(rng, drv, n_cases=24, sizes=((8, 8), (5, 6), (4, 4))) -> Resul
             fast = rng.random() < 0.6
             n_batch = rng.choice([1, 2, 3, c.N, c.N, c.N]) if c.N > 1 else 1
             n_batch = min(n_batch, c.N)
+            if k % 4 == 1:
+                # "empty batch BEFORE a non-empty batch" stream: species-grouped order (independent atoms 0, n_lp, ..),
+                # at least two atoms per primitive cell, several lattice points, one atom per batch — the loop has to
+                # SKIP the empty batches and carry on
+                for _ in range(200):
+                    c = abstract_cell(rng, max_N=max(maxN, 4), max_nlp=max(maxnlp, 2), min_nlp=2, n_shells=3, shuffle=False)
+                    if c.N // c.n_lp >= 2:
+                        break
+                n_batch = c.N
+                res.count("empty_batch_stream")
             if k % 4 == 3:
                 # "every batch non-empty" stream: few lattice points, one atom per batch — accumulation over several
                 # non-empty batches followed by ONE normalisation
